@@ -29,6 +29,7 @@ var checks = map[string]func(*core.Ctx){
 	"C06": history.Run,
 	"C07": session.RunC07,
 	"C08": session.RunC08,
+	"C09": session.RunC09,
 	"C10": wq.RunC10,
 	"C11": authz.RunC11,
 	"C12": authz.RunC12,
@@ -45,6 +46,10 @@ func main() {
 	if len(os.Args) < 2 {
 		fmt.Fprintln(os.Stderr, "usage: vcheck <Cnn> [quick|thorough] [--replay file]")
 		os.Exit(core.ExitMachinery)
+	}
+	if os.Args[1] == "_replaychild" {
+		session.ReplayChild(os.Args[2:])
+		return
 	}
 	if os.Args[1] == "_storechild" {
 		durable.Child(os.Args[2:])
